@@ -373,6 +373,24 @@ func (p *Persister) flushNow(ctx context.Context, batch map[string]persistData, 
 	if err != nil {
 		// TODO make sure error is propagated back to the runtime and Conduit shuts down
 		p.logger.Err(ctx, err).Msg("error creating new transaction")
+		// Nothing was written. Tell every callback, exactly like a failed
+		// write below does, and report the callbacks done: returning here
+		// without doing so left this flush generation incomplete forever,
+		// every WaitPendingWrites / WaitPersisted (StopAndWait) hung on it and
+		// no source ever learned that its position was not stored.
+		err = cerrors.Errorf("failed to create a transaction: %w", err)
+		var cbWg sync.WaitGroup
+		cbWg.Add(len(batch))
+		for _, data := range batch {
+			go func(cb PersistCallback) {
+				defer cbWg.Done()
+				cb(err)
+			}(data.callback)
+		}
+		go func() {
+			cbWg.Wait()
+			close(st.callbacksDone)
+		}()
 		return
 	}
 
